@@ -647,8 +647,12 @@ class Unit:
         """Include a non-function item (struct, enum, const, ...) verbatim (after R1/R2)."""
         self.entries.append(Entry(src, key, kind='item'))
 
-    def fn(self, src, key, contract=None):
-        self.entries.append(Entry(src, key, contract, kind='fn'))
+    def fn(self, src, key, contract=None, transform=None):
+        """transform: optional documented mechanical rewrite of the item text applied before the global
+        rules (only rule R9, lib/r9macro.py, uses it)"""
+        e = Entry(src, key, contract, kind='fn')
+        e.transform = transform
+        self.entries.append(e)
         if contract is not None:
             self.fn_contracts[key] = contract
 
@@ -726,7 +730,10 @@ class Unit:
                 if it.kind != 'fn':
                     raise AnchorLost('%s is not a fn' % e.key)
                 meta['functions'][e.key] = _fn_meta(it, e.src)
-                weave_fn(_pubify(it), e.key, e.contract, mode, em)
+                txt = _pubify(it)
+                if getattr(e, 'transform', None):
+                    txt = e.transform(txt)
+                weave_fn(txt, e.key, e.contract, mode, em)
             elif e.kind in ('impl', 'trait'):
                 self._emit_impl(e, it, mode, em, meta)
             elif e.kind == 'inherent':
